@@ -347,7 +347,21 @@ def unit_cases(rng, n, jobs, recs, late=lambda: False):
                         envmap[b.syms[k][0]] = (lo, hi)
                         envs.append("(%s %d %s %s)" % (b.syms[k][0].name(), b.syms[k][0]._id,
                                                        "N" if lo is None else lo, "N" if hi is None else hi))
-                e = b.e(eg.expr(names, [], rng.choice([1, 2, 2, 3])))
+                if rng.random() < 0.4:
+                    # shifted / mirrored iterator: in range only thanks to a non-zero lower bound / negative coefficient
+                    v = names[0]
+                    lo = rng.choice([1, 2, 3, 4, 5])
+                    hi = lo + rng.choice([0, 1, 2, 3, 3, 7])
+                    envmap[b.syms[v][0]] = (lo, hi)
+                    envs = ["(%s %d %s %s)" % (k2.name(), k2._id, "N" if l2 is None else l2, "N" if h2 is None else h2)
+                            for k2, (l2, h2) in envmap.items()]
+                    qd, md, _ = eg.shifted(v, lo, hi, names[1:])
+                    t = qd if rng.random() < 0.5 else md
+                    if rng.random() < 0.3:
+                        t = ("b", rng.choice(["+", "-"]), t, eg.affine(names, [], 1))
+                    e = b.e(t)
+                else:
+                    e = b.e(eg.expr(names, [], rng.choice([1, 2, 2, 3])))
                 job = "(index_start (%s) %s)" % (" ".join(envs), ex.expr(e))
                 try:
                     r = fake_normalizer(envmap).index_start(e)
